@@ -45,6 +45,8 @@ def expr_src(e, root):
         return "(~%s)" % expr_src(e[1], root)
     if k == "dynref":
         return "%s.%s()" % (".".join([root] + list(e[1])), e[2])
+    if k in ("inrl", "notinrl"):
+        return "%s.%s(%s.%s)" % (expr_src(e[1], root), "inside" if k == "inrl" else "not_inside", root, e[2])
     if k in ("in", "notin"):
         items = []
         for it in e[2]:
@@ -130,12 +132,18 @@ def field_ctor(f):
     raise Exception("unknown field kind " + k)
 
 
+def rl_item_src(it):
+    return expr_src(it[0], "self") if len(it) == 1 else "(%s, %s)" % (expr_src(it[0], "self"), expr_src(it[1], "self"))
+
+
 def class_src(c):
     lines = ["@vsc.randobj", "class %s(%s):" % (c["name"], c.get("base") or "object"), "    def __init__(self):"]
     if c.get("base"):
         lines.append("        super().__init__()")
     for f in c["fields"]:
         lines.append("        self.%s = %s" % (f["name"], field_ctor(f)))
+    for name, items in (c.get("rangelists") or {}).items():
+        lines.append("        self.%s = vsc.rangelist(%s)" % (name, ", ".join(rl_item_src(it) for it in items)))
     if not c["fields"] and not c.get("base"):
         lines.append("        pass")
     for b in c.get("blocks", []):
@@ -266,7 +274,11 @@ class Env(object):
                     idx = [int(lst[i]) for i in range(n)]
                 except Exception as e:  # noqa
                     idx = "exc:" + type(e).__name__
-                out[".".join(prefix + (f["name"],))] = {"len": n, "size": int(lst.size), "iter": [int(x) for x in lst], "index": idx,
+                try:
+                    it = [int(x) for x in lst]
+                except Exception as e:  # noqa
+                    it = "exc:" + type(e).__name__
+                out[".".join(prefix + (f["name"],))] = {"len": n, "size": int(lst.size), "iter": it, "index": idx,
                                                         "model_len": len(lst.get_model().field_l)}
             elif f["kind"] == "obj":
                 with vsc.raw_mode():
@@ -331,6 +343,16 @@ class Env(object):
         if k == "cmode":
             getattr(self.resolve(o, op.get("path", [])), op["block"]).constraint_mode(op["on"])
             return {}
+        if k in ("rl_append", "rl_extend", "rl_clear"):
+            rl = object.__getattribute__(o, op["rl"])
+            conv = lambda it: eval(rl_item_src(it), {"vsc": vsc})
+            if k == "rl_clear":
+                rl.clear()
+            elif k == "rl_append":
+                rl.append(conv(op["items"][0]))
+            else:
+                rl.extend([conv(it) for it in op["items"]])
+            return {}
         if k == "seed":
             o.set_randstate(vsc.RandState.mkFromSeed(op["seed"]) if hasattr(vsc.RandState, "mkFromSeed") else vsc.RandState(op["seed"]))
             return {}
@@ -344,7 +366,17 @@ class Env(object):
             out = "ok"
             err = None
             try:
-                if op.get("inline") is not None:
+                if op.get("free") is not None:
+                    with vsc.raw_mode():
+                        fs = [self.resolve(o, p) for p in op["free"]]
+                    if op.get("inline") is not None:
+                        src = "def _inl(o, fs):\n    with vsc.randomize_with(*fs):\n" + "\n".join(stmts_src(op["inline"], "o", 2)) + "\n"
+                        ns = dict(self.ns)
+                        exec(src, ns)
+                        ns["_inl"](o, fs)
+                    else:
+                        vsc.randomize(*fs)
+                elif op.get("inline") is not None:
                     src = "def _inl(o):\n    with o.randomize_with() as it:\n" + "\n".join(stmts_src(op["inline"], "it", 2)) + "\n"
                     ns = dict(self.ns)
                     exec(src, ns)
@@ -366,6 +398,10 @@ class Env(object):
 
 def run(sc):
     from vsc.impl import ctor
+    import random
+    import zlib
+    # objects draw their random state from Python's global generator: fix it per scenario so that every run replays exactly
+    random.seed(zlib.crc32(json.dumps(sc, sort_keys=True).encode()))
     ctor.test_setup()
     btor_proxy.install()
     env = Env(sc)
